@@ -134,9 +134,9 @@ def u_b_vecdist(ctx):
                     z3.And(R(d[i]) >= 0, R(d[i]) * R(d[i]) == sq), timeout_ms=20000)
         e.prove(tag + ":front-not-modified", all(_t(pts[i, k]).eq(snap[i][k]) for i in range(npt) for k in range(nobj)))
         return "ok"
-    shapes = [(1, 1, 0), (2, 1, 0), (2, 1, 1), (2, 2, 0, (1, -1), (1, 1)), (2, 2, 1, (-1, -1), (2, 1))]
+    shapes = [(1, 1, 0), (2, 1, 0), (2, 1, 1), (2, 2, 0, (1, -1), (1, 1)), (2, 2, 1, (-1, -1), (1, 1))]
     if ctx.tier == "thorough":
-        shapes += [(3, 1, 1), (3, 2, 0, (1, 1), (1, 3)), (3, 2, 1, (1, -1), (1, 1))]
+        shapes += [(3, 1, 1), (2, 2, 1, (-1, -1), (2, 1)), (3, 2, 0, (1, 1), (1, 3)), (3, 2, 1, (1, -1), (1, 1))]
     modeb.run_shapes(ctx, "vecdist", shapes, body, max_paths=5000)
 
 
